@@ -9,7 +9,7 @@
  * (checked in every run) the queries over all (QIDX, KLEN) pin down both containers completely: every token is classified
  * exactly once, in order, and nothing is marked used. */
 #include "harness.h"
-#define TOKW 4
+#define TOKW 6
 #define MAXREC 10
 int64_t w_classify(uint8_t* toks, uint64_t* lens, uint64_t ntok, uint32_t kind, uint64_t idx, uint8_t* name, uint64_t namelen, uint64_t* info, uint8_t* text_out);
 #ifndef KLEN
@@ -20,6 +20,15 @@ int64_t w_classify(uint8_t* toks, uint64_t* lens, uint64_t ntok, uint32_t kind, 
 #endif
 #ifndef L2
 #define L2 0
+#endif
+#ifndef K0
+#define K0 0
+#endif
+#ifndef K1
+#define K1 0
+#endif
+#ifndef K2
+#define K2 0
 #endif
 
 struct ent { int kind; int idx; int nl; uint8_t name[TOKW]; int tl; uint8_t text[TOKW]; };
@@ -35,9 +44,18 @@ void harness(void) {
   uint8_t toks[3 * TOKW];
   uint64_t lens[3];
   memset(toks, 0, sizeof(toks));
+  static const int K[3] = {K0, K1, K2};
   for (int t = 0; t < NTOK; t++) {
     lens[t] = L[t];
-    for (int i = 0; i < L[t]; i++) { toks[t * TOKW + i] = in_u8(); ASSUME(toks[t * TOKW + i] != 0); }
+    for (int i = 0; i < L[t]; i++) {
+      /* token kinds (cell): 0 = every byte symbolic; 1 = "--" then symbolic bytes; 2 = 'x' then symbolic bytes;
+       * 3 = the concrete flag group "-abc"; 4 = the concrete flag group "-aaa" (same flag repeated) */
+      int sym = K[t] == 0 || ((K[t] == 1 && i >= 2) || (K[t] == 2 && i >= 1));
+      if (sym) { toks[t * TOKW + i] = in_u8(); ASSUME(toks[t * TOKW + i] != 0); }
+      else if (K[t] == 1) toks[t * TOKW + i] = '-';
+      else if (K[t] == 2) toks[t * TOKW + i] = 'x';
+      else toks[t * TOKW + i] = (i == 0) ? '-' : (K[t] == 3 ? (uint8_t)('a' + i - 1) : 'a');
+    }
   }
   /* reference classification */
   struct ent e[MAXREC]; int ne = 0, npos = 0;
